@@ -56,7 +56,11 @@ GS(long[3], 12)
 using long_2x3 = long[2][3];
 using char_3x2 = char[3][2];
 using intp_2x2 = int* [2][2];
+using clong_4 = const long[4];
+using cchar_5 = const char[5];
 GS(long_2x3, 24)
+GS(clong_4, 16)
+GS(cchar_5, 5)
 GS(char_3x2, 6)
 GS(intp_2x2, 4 * sizeof(PtrT))
 using VSG = std::conditional_t<sizeof(PtrT) == 2, VS_lp32_p16, std::conditional_t<sizeof(PtrT) == 4, VS_lp32_p32, VS_lp32_p64>>;
